@@ -473,10 +473,16 @@ func (b *ByteSequence) Decode(d *Decoder) error {
 	}
 
 	// make the slice with length
+	if length > uint64(d.buf.Len()) {
+		return errors.New("byte sequence length exceeds the remaining input")
+	}
 	byteSequence := make([]byte, length)
-	_, err = d.buf.Read(byteSequence)
+	n, err := d.buf.Read(byteSequence)
 	if err != nil {
 		return err
+	}
+	if uint64(n) != length {
+		return errors.New("not enough data for byte sequence")
 	}
 	cLog(Yellow, "ByteSequence: %x", byteSequence)
 
@@ -1052,9 +1058,12 @@ func (bf *Bitfield) Decode(d *Decoder) error {
 	cLog(Cyan, "Decoding Bitfield")
 
 	bytes := make([]byte, AvailBitfieldBytes)
-	_, err := d.buf.Read(bytes)
+	n, err := d.buf.Read(bytes)
 	if err != nil {
 		return err
+	}
+	if n != len(bytes) {
+		return errors.New("not enough data for bitfield")
 	}
 	cLog(Yellow, "BitField: %x", bytes)
 
@@ -3144,9 +3153,14 @@ func (e *ExtrinsicData) Decode(d *Decoder) error {
 		return nil
 	}
 
+	if length > uint64(d.buf.Len()) {
+		return errors.New("extrinsic data length exceeds the remaining input")
+	}
 	data := make([]byte, length)
-	if _, err := d.buf.Read(data); err != nil {
+	if n, err := d.buf.Read(data); err != nil {
 		return err
+	} else if uint64(n) != length {
+		return errors.New("not enough data for extrinsic data")
 	}
 	cLog(Yellow, "ExtrinsicData: %x", data)
 	*e = data
